@@ -200,6 +200,12 @@ def _run(case, ctx, sim):
         sim.settle()
         sim.advance(0.5)
     if ctx._failures:
+        if slow & set(range(P)):
+            first = ctx._failures[0]
+            ctx._failures = []
+            ctx.fail(["C18.late-answer", "taken-for-current-page"],
+                     "with a speculative attempt of page(s) %r answered after the next page was requested: %s [%s]" % (
+                         sorted(slow & set(range(P))), first[1], "/".join(first[0])))
         return
     # answers still parked (late attempt of the last page) are delivered now; nothing may change
     for item in list(parked):
@@ -274,6 +280,15 @@ def _run(case, ctx, sim):
         if seen != want:
             ctx.fail(["C18.rows", "partial"], "first %d rows seen %r, server sent %r" % (k, seen, want))
 
+    if slow & set(range(P)) and ctx._failures:
+        # one root cause, many symptoms (rows repeated, rows lost, pages re-requested or skipped, index errors):
+        # an answer to an attempt of an earlier page fetch was taken for the answer of the current one
+        first = ctx._failures[0]
+        n_sym = len(ctx._failures)
+        ctx._failures = []
+        ctx.fail(["C18.late-answer", "taken-for-current-page"],
+                 "with a speculative attempt of page(s) %r answered after the next page was requested: %s [%s; %d symptom(s)]" % (
+                     sorted(slow & set(range(P))), first[1], "/".join(first[0]), n_sym))
     ctx.label("pattern=%s" % pattern, "pages=%d" % P, "factory=%s" % case.get("factory", "named"))
     empty_mid = any(sz == 0 for sz in sizes[:-1])
     if empty_mid:
@@ -296,7 +311,7 @@ def _seqs(max_len, max_size):
 
 def _chunks(tier):
     if tier == "quick":
-        return [{"pattern": p, "max_len": 3, "max_size": 2, "extra_len4": True} for p in PATTERNS]
+        return [{"pattern": p, "max_len": 4, "max_size": 2} for p in PATTERNS]
     return [{"pattern": p, "max_len": 5, "max_size": 2, "first": f} for p in PATTERNS for f in range(3)]
 
 
